@@ -744,7 +744,7 @@ class Exec:
                 if v is not None:
                     env[g] = v
         if self.result is not None:
-            env["result"] = self.result
+            env["ret" if "result" in self.params else "result"] = self.result
         return env
 
     def eval_clause(self, lam: ast.expr, env: dict[str, SV], old_heap: dict | None = None) -> list[tuple[str, Any]]:
@@ -1211,7 +1211,17 @@ class Exec:
         self.wr("fld:" + name, oid, v.t)
 
     # subscripts ----------------------------------------------------------
+    def strip_none(self, v: SV) -> SV:
+        """Optional[X] viewed as X (for total, spec-level reads of an optional container)."""
+        if v.ty.kind == "union":
+            rest = [a for a in v.ty.args if a.kind != "none"]
+            if len(rest) == 1:
+                return SV(S.mk_ref(S.un_ref(v.t)) if rest[0].kind in ("list", "dict", "set", "tuple", "obj") else v.t, rest[0], v.aux)
+        return v
+
     def subscript_load(self, base: SV, key: SV) -> SV:
+        if base.ty.kind == "union" and self.spec:
+            base = self.strip_none(base)
         k = base.ty.kind
         if k == "dict":
             if not self.spec:
@@ -1521,6 +1531,13 @@ class Exec:
     def binop(self, op: ast.operator, a: SV, b: SV) -> SV:
         from . import lib
 
+        # Optional[number] used in arithmetic: the None case would be a TypeError, which
+        # the guarded code excludes (assumption: type-correct program)
+        if a.ty.kind == "union" and any(x.is_num for x in a.ty.args):
+            a = self.strip_none(a)
+        if b.ty.kind == "union" and any(x.is_num for x in b.ty.args):
+            b = self.strip_none(b)
+
         r = lib.binop_hook(self, op, a, b)
         if r is not None:
             return r
@@ -1594,6 +1611,12 @@ class Exec:
 
     def compare(self, op: ast.cmpop, a: SV, b: SV):
         from . import lib
+
+        if not isinstance(op, (ast.Is, ast.IsNot, ast.In, ast.NotIn, ast.Eq, ast.NotEq)):
+            if a.ty.kind == "union" and any(x.is_num for x in a.ty.args):
+                a = self.strip_none(a)
+            if b.ty.kind == "union" and any(x.is_num for x in b.ty.args):
+                b = self.strip_none(b)
 
         r = lib.compare_hook(self, op, a, b)
         if r is not None:
